@@ -83,7 +83,7 @@ def shape(ct, S: Any, cls: str, props_cls: Optional[str] = None) -> List[Any]:
 
 def float_range(x: Any) -> Any:
     """representation invariant of the float model: a finite float lies within +-DBL_MAX"""
-    return z3.Implies(M.is_FloatV(x), z3.And(M.fval(x) <= M.DBL_MAX, M.fval(x) >= -M.DBL_MAX))
+    return M.inp(x)      # closed under list items / dict values / schema props by axioms (model.base_axioms)
 
 
 def nil_or(x: Any, pred: Any) -> Any:
